@@ -1797,15 +1797,16 @@ func c13GenFonts(c *Ctx, n int) {
 			if len(out) < 6000 {
 				c13ReadCases(c, c13HexMust(out[3:]), 6)
 			}
+			if !f.isCID && ng <= 87 {
+				c13PredefinedCharsetCases(c, c13HexMust(out[3:]))
+			}
 		} else {
 			c.Stat("file_write", out)
 		}
 		// whole-file correspondence with the model of Write
 		if cs, dw, nw, err := cff.VerifEncodeCharStrings(f.build()); err == nil {
 			line := fmt.Sprintf("font=%s cs=%s dw=%d nw=%d", desc, c13ShowBlobs(cs), int32(dw), int32(nw))
-			if encKind != "" {
-				line += " enckind=" + encKind
-			}
+			// (the model decides itself whether the vector is the Standard or the Expert encoding)
 			res := c.Case(Verdict, "cff.file.model", line, ng > 1)
 			c.Stat("file_model", c13OutcomeClass(res))
 		} else {
@@ -2357,4 +2358,59 @@ func c13ReadCases(c *Ctx, file []byte, nmut int) {
 
 func c13ReadSummaryStrings(g *cff.Font) string {
 	return g.Version + g.Notice + g.Copyright + g.FullName + g.FamilyName + g.Weight
+}
+
+
+// c13PredefinedCharsetCases turns the charset offset of a written simple font into 0, 1, 2 (the
+// predefined ISOAdobe, Expert, ExpertSubset charsets; the writer never uses them) by patching the
+// one-byte operand in the Top DICT, and lets Read and its model read the result.
+func c13PredefinedCharsetCases(c *Ctx, file []byte) {
+	_, p1, err := cff.VerifReadIndex(file, 4)
+	if err != nil {
+		return
+	}
+	tops, p2, err := cff.VerifReadIndex(file, p1)
+	if err != nil || len(tops) != 1 {
+		return
+	}
+	strs, _, err := cff.VerifReadIndex(file, p2)
+	if err != nil {
+		return
+	}
+	custom := make([]string, len(strs))
+	for i, b := range strs {
+		custom[i] = string(b)
+	}
+	ops_, args, err := cff.VerifDictDecode(tops[0], custom)
+	if err != nil {
+		return
+	}
+	off := -1
+	for i, op := range ops_ {
+		if op == 15 && len(args[i]) == 1 {
+			if v, ok := args[i][0].(int32); ok {
+				off = int(v)
+			}
+		}
+	}
+	if off < 4 || off > 107 {
+		c.Stat("predefined_charset", "skipped: offset not a one-byte operand")
+		return
+	}
+	start := int(p2) - len(tops[0]) // the only object of the Top DICT INDEX ends where the INDEX ends
+	idx := -1
+	for i := 0; i+1 < len(tops[0]); i++ {
+		if tops[0][i] == byte(off+139) && tops[0][i+1] == 15 {
+			idx = start + i
+		}
+	}
+	if idx < 0 {
+		return
+	}
+	for k, name := range []string{"ISOAdobe", "Expert", "ExpertSubset"} {
+		m := append([]byte(nil), file...)
+		m[idx] = byte(139 + k)
+		res := c.Case(Verdict, "cff.file.read", "file="+hx(m)+" w=1", true)
+		c.Stat("predefined_charset", name+": "+c13OutcomeClass(res))
+	}
 }
